@@ -124,7 +124,7 @@ def elem(dt, specials=True, mag=None):
         return st.booleans()
     if dt in _INFO:
         return int_elem(dt, mag)
-    return float_elem(dt, specials, mag or 256)
+    return float_elem(dt, specials, min(mag or 256, 256))   # exactly representable sums in float32 whatever the order of summation
 
 
 @_cache
